@@ -107,6 +107,7 @@ def rule_rep_dispatch(ctx: Ctx) -> None:
 
 
 KNOCKOUTS = [
+    Knockout("trace-distance-one-pure-shortcut", DMF, sub_once("    eigvals, _ = eigh(rho - sigma)\n", "    if is_pure(rho) or is_pure(sigma):\n        return np.sqrt(1.0 - np.real(np.trace(rho @ sigma)))\n    eigvals, _ = eigh(rho - sigma)\n"), "dist.shape", "shortcut not restricted"),
     Knockout("einsum-dropped-label-reversed", DMF, sub_once("string.ascii_uppercase[i] if i in keep else string.ascii_lowercase[i]", "string.ascii_uppercase[i] if i in keep else string.ascii_lowercase[ndim - 1 - i]"), "num.einsum-trace", "do not pair row i"),
     Knockout("fidelity-one-sided-product", DMF, sub_once("rho_sigma = sqrt_rho @ sigma @ sqrt_rho", "rho_sigma = sqrt_rho @ sqrt_rho @ sigma"), "num.hermitian-arg", "non-Hermitian product"),
     Knockout("dist-half", DMF, sub_once("    return 0.5 * np.sum(np.abs(eigvals))", "    return np.sum(np.abs(eigvals))"), "dist.shape", "trace_distance"),
